@@ -229,6 +229,25 @@ def get (c : T) (key fv : Nat) : T × Nat × Bool :=
     let j := (c.i + 1) % cacheSize
     ({ slots := c.slots.set j (some (key, fv)), i := j }, fv, true)
 
+/-- `Get(key)` whose getter panics (the caller recovers): on a hit nothing but the cursor moves and the
+value is returned; on a miss the cursor has been advanced to the slot that would have been reused,
+no slot is written -/
+def getFail (c : T) (key : Nat) : T × Option Nat :=
+  match scan c.slots key cacheSize c.i with
+  | some (j, v) => ({ c with i := j }, some v)
+  | none => ({ c with i := (c.i + 1) % cacheSize }, none)
+
+/-- `Get(key)` whose getter re-enters the cache with `Get(k2)` (inner getter result `fv2`) and then
+returns `fv`. The outer call stores key and value together into the slot the cursor designates
+*after* the getter has returned. Result: value, getter called, and the inner (value, called). -/
+def getNest (c : T) (key k2 fv2 fv : Nat) : T × Nat × Bool × Option (Nat × Bool) :=
+  match scan c.slots key cacheSize c.i with
+  | some (j, v) => ({ c with i := j }, v, false, none)
+  | none =>
+    let c1 : T := { c with i := (c.i + 1) % cacheSize }
+    let r := get c1 k2 fv2
+    ({ slots := r.1.slots.set r.1.i (some (key, fv)), i := r.1.i }, fv, true, some (r.2.1, r.2.2))
+
 end Cache8
 
 /-! ## roaring  (util/roaring/roaring.go)
